@@ -652,6 +652,7 @@ def run(ctx):
     # ================================================================ derived solvers (oracle only)
     derived_checks(ctx, thorough)
     derived_correspondence(ctx, thorough, PRE)
+    harden_c07(ctx, qe, thorough)
     ctx.notes.append("largest observed/tolerance ratios: %s" % json.dumps({k_: round(v, 6) for k_, v in worst.items()}))
     ctx.trusted += ["mpmath (50 digits) / fractions.Fraction oracle arithmetic",
                     "scripted numpy RandomState subclass for standard_normal; Riccati gamma observed through a sys.setprofile return hook"]
@@ -854,6 +855,416 @@ def dtype_forms(ctx, qe, thorough, rec_f, meta_rf):
                     ctx.fail("nnash_dtype_forms", "nnash with argument forms %s differs from the float64 call by %.3g" % (forms, dev), inp, [np.asarray(x).tolist() for x in gnn], [np.asarray(x).tolist() for x in e])
             except Exception as ex:     # noqa
                 ctx.fail("nnash_dtype_forms", "nnash with argument forms %s raises" % forms, inp, repr(ex), None)
+
+
+# ------------------------------------------------------------------ hardening audit helpers (classes 1-6 of the audit)
+ARRAY_DRESS = ("list", "tuple", "int64", "int32", "float32", "float64", "noncontig", "fortran", "rowslice")
+SCALAR_DRESS = ("int", "float", "np.int64", "np.int32", "np.intp", "np.uint8", "np.float64", "np.float32")
+
+
+def dress_array(M, form):
+    """integer-valued matrix in one of the audit's array 'dresses'"""
+    ints = [[int(x) for x in row] for row in M]
+    r_, c_ = len(ints), len(ints[0])
+    if form == "list":
+        return ints
+    if form == "tuple":
+        return tuple(tuple(row) for row in ints)
+    if form in ("int64", "int32", "float32", "float64"):
+        return np.array(ints, dtype=form)
+    if form == "noncontig":
+        big = np.full((2 * r_, 2 * c_), 7.0); big[::2, ::2] = ints
+        return big[::2, ::2]
+    if form == "fortran":
+        return np.asfortranarray(np.array(ints, dtype=float))
+    if form == "rowslice":
+        big = np.full((r_ + 2, c_), -3.0); big[1:1 + r_, :] = ints
+        return big[1:1 + r_, :]
+    raise KeyError(form)
+
+
+def dress_scalar(v, form):
+    return {"int": int, "float": float, "np.int64": np.int64, "np.int32": np.int32, "np.intp": np.intp, "np.uint8": np.uint8,
+            "np.float64": np.float64, "np.float32": np.float32}[form](v)
+
+
+def _snap(x):
+    return x.copy() if isinstance(x, np.ndarray) else np.array(x, dtype=object if isinstance(x, str) else None).copy() if isinstance(x, (list, tuple)) else x
+
+
+def _same(a, b):
+    try:
+        return bool(np.array_equal(np.asarray(a), np.asarray(b)))
+    except Exception:
+        return a is b
+
+
+def _arrays(out):
+    if isinstance(out, np.ndarray):
+        return [out]
+    if isinstance(out, (tuple, list)):
+        return [o for x in out for o in _arrays(x)]
+    return []
+
+
+def checked_call(ctx, kind, fn, args, inp):
+    """call fn(); an exception, a mutated argument or a result sharing memory with an argument is an oracle failure"""
+    snaps = {k_: _snap(v) for k_, v in args.items()}
+    try:
+        out = fn()
+    except Exception as e:     # noqa
+        ctx.fail(kind + "_raises", "raises on a valid input", inp, repr(e), None)
+        return None
+    for k_, v in args.items():
+        if not _same(v, snaps[k_]):
+            ctx.fail(kind + "_mutates_argument", "argument %s is modified by the call" % k_, dict(inp, argument=k_), jsonable(v), jsonable(snaps[k_]))
+    for o in _arrays(out):
+        for k_, v in args.items():
+            if isinstance(v, np.ndarray) and np.shares_memory(o, v):
+                ctx.fail(kind + "_aliases_argument", "result shares memory with argument %s" % k_, dict(inp, argument=k_), None, None)
+    return out
+
+
+
+def _dev(got, exp):
+    ga, ea = _flat(got), _flat(exp)
+    if len(ga) != len(ea):
+        return float("inf")
+    return max([(float(np.max(np.abs(x - y)) / (1 + np.max(np.abs(y)))) if x.shape == y.shape else float("inf")) for x, y in zip(ga, ea)] + [0.0])
+
+
+def _flat(out):
+    if isinstance(out, (tuple, list)):
+        return [o for x in out for o in _flat(x)]
+    return [np.atleast_1d(np.asarray(out, dtype=float))]
+
+
+def _lq_run(lq, T, x0, seed, ts=None, stationary=True):
+    """a fixed battery of calls on an LQ object; returns everything it produced (copies)"""
+    out = []
+    if T:
+        for _ in range(int(T)):
+            lq.update_values(); out += [np.array(lq.F), np.array(lq.P), float(lq.d)]
+        xp, up, wp = lq.compute_sequence(x0, ts_length=ts, random_state=seed)
+        out += [xp.copy(), up.copy(), wp.copy(), np.array(lq.P), float(lq.d)]
+    elif stationary:
+        P, F, d = lq.stationary_values(); out += [np.array(P), np.array(F), float(d)]
+        xp, up, wp = lq.compute_sequence(x0, ts_length=ts if ts else 4, random_state=seed)
+        out += [xp.copy(), up.copy(), wp.copy()]
+    return out
+
+
+def harden_c07(ctx, qe, thorough):
+    import warnings
+    rng = ctx.rng
+    mat_names = ("Q", "R", "A", "B", "C", "N", "Rf")
+    fa = lambda M: np.array(fl(M))     # noqa
+
+    def fresh_lq(p, T, beta):
+        return qe.LQ(fa(p["Q"]), fa(p["R"]), fa(p["A"]), fa(p["B"]), C=fa(p["C"]), N=fa(p["N"]), beta=beta, T=T, Rf=fa(p["Rf"]) if T else None)
+    with warnings.catch_warnings():
+        warnings.simplefilter("ignore")
+        # ===================================================== LQ: dress of every argument, non-mutation, seeds
+        for t in range(24 if thorough else 8):
+            n, k, j = rng.randint(1, 3), rng.randint(1, 2), rng.randint(1, 2)
+            p = gen_lq_int(rng, n, k, j)
+            if p is None:
+                continue
+            finite = rng.random() < 0.6
+            T = rng.randint(1, 4) if finite else None
+            bval = rng.choice([1, 0.5]) if finite else 0.5
+            x0 = [rng.randint(-3, 3) for _ in range(n)]
+            try:
+                ref = _lq_run(fresh_lq(p, T, float(bval)), T, np.array(x0, dtype=float), 7)
+            except Exception as e:     # noqa
+                ctx.fail("lq_raises", "canonical float64 LQ battery raises", pinput(dict(p, beta=Fraction(bval).limit_denominator(10)), fn="LQ (hardening)", T=T), repr(e), None); continue
+            for v in range(3):
+                forms = {nm: rng.choice(ARRAY_DRESS) for nm in mat_names}
+                args = {nm: dress_array(p[nm], forms[nm]) for nm in mat_names}
+                fb = rng.choice(("int", "np.int64", "np.int32", "np.intp", "np.uint8", "float", "np.float64") if bval == 1 else ("float", "np.float64", "np.float32"))
+                fT = rng.choice(("int", "np.int64", "np.int32", "np.intp", "np.uint8"))
+                fs = rng.choice(("int", "np.int64", "np.int32", "np.intp", "np.uint8"))
+                fx = rng.choice(("list", "tuple", "int64", "float64", "noncontig1d"))
+                xa = {"list": list(x0), "tuple": tuple(x0), "int64": np.array(x0, dtype=np.int64), "float64": np.array(x0, dtype=float),
+                      "noncontig1d": np.array([[v_, 9] for v_ in x0], dtype=float)[:, 0]}[fx]
+                args["x0"] = xa
+                inp = pinput(dict(p, beta=Fraction(bval).limit_denominator(10)), fn="LQ (hardening: dress)", T=T, dress=forms, beta_dress=fb, T_dress=fT, seed_dress=fs, x0_dress=fx)
+                for f_ in list(forms.values()) + ["beta=" + fb, "T=" + fT, "seed=" + fs, "x0=" + fx]:
+                    ctx.count("dress:%s" % f_)
+                ctx.case(("h_lq", str(p), str(forms), fb, fT, fs, fx, T), nontrivial=True)
+
+                def go():
+                    lq = qe.LQ(args["Q"], args["R"], args["A"], args["B"], C=args["C"], N=args["N"], beta=dress_scalar(bval, fb),
+                               T=dress_scalar(T, fT) if T else None, Rf=args["Rf"] if T else None)
+                    return _lq_run(lq, T, xa, dress_scalar(7, fs))
+                got = checked_call(ctx, "lq", go, args, inp)
+                if got is None:
+                    continue
+                d_ = _dev(got, ref)
+                if d_ > (1e-5 if ("float32" in forms.values() or fb == "np.float32") else 1e-9):
+                    ctx.fail("lq_dress", "LQ battery (updates, compute_sequence / stationary_values) differs from the canonical float64 objects by %.3g" % d_, inp, None, None)
+            # ---- optional arguments: omitted vs explicit default vs None vs zeros
+            pz = dict(p, N=zeros(k, n), C=zeros(n, 1), j=1)
+            try:
+                refz = _lq_run(qe.LQ(fa(pz["Q"]), fa(pz["R"]), fa(pz["A"]), fa(pz["B"]), C=fa(pz["C"]), N=fa(pz["N"]), beta=1 if finite else 0.5, T=T, Rf=fa(pz["Rf"]) if T else None),
+                               T, np.array(x0, dtype=float), 7)
+                for cm in ("omitted", "None", "zeros"):
+                    for nm_ in ("omitted", "None", "zeros"):
+                        if rng.random() < 0.5:
+                            continue
+                        kw = {}
+                        if cm != "omitted": kw["C"] = None if cm == "None" else np.zeros((n, 1))
+                        if nm_ != "omitted": kw["N"] = None if nm_ == "None" else np.zeros((k, n))
+                        if not finite or rng.random() < 0.5: kw["beta"] = 1 if finite else 0.5
+                        if T: kw["T"] = T; kw["Rf"] = fa(pz["Rf"])
+                        ctx.count("optional:C=%s" % cm); ctx.count("optional:N=%s" % nm_); ctx.count("optional:beta=%s" % ("explicit" if "beta" in kw else "omitted"))
+                        if not finite and "beta" not in kw:
+                            continue
+                        got = _lq_run(qe.LQ(fa(pz["Q"]), fa(pz["R"]), fa(pz["A"]), fa(pz["B"]), **kw), T, np.array(x0, dtype=float), 7)
+                        if _dev(got, refz) > 1e-9:
+                            ctx.fail("lq_optional_arguments", "LQ with C %s / N %s differs from the call with explicit zero matrices" % (cm, nm_),
+                                     pinput(pz, fn="LQ (hardening: optional)", T=T, C_mode=cm, N_mode=nm_), None, None)
+                if not finite:
+                    a_ = fresh_lq(p, None, 0.5).stationary_values(); b_ = fresh_lq(p, None, 0.5).stationary_values(method="doubling")
+                    ctx.count("optional:method=explicit")
+                    if _dev(b_, a_) > 0:
+                        ctx.fail("lq_optional_arguments", "stationary_values(method='doubling') differs from stationary_values()", pinput(p, fn="LQ.stationary_values"), None, None)
+            except Exception as e:     # noqa
+                ctx.fail("lq_raises", "LQ with optional arguments omitted/None/zeros raises", pinput(pz, fn="LQ (hardening: optional)", T=T), repr(e), None)
+
+        # ===================================================== LQ: several objects alive, attribute re-assignment
+        for t in range(18 if thorough else 6):
+            n, k, j = rng.randint(1, 3), rng.randint(1, 2), rng.randint(1, 2)
+            p1, p2 = gen_lq_int(rng, n, k, j), gen_lq_int(rng, n, k, j)
+            if p1 is None or p2 is None:
+                continue
+            finite = rng.random() < 0.6
+            T1, T2 = (rng.randint(1, 4), rng.randint(1, 4)) if finite else (None, None)
+            b1, b2 = (1.0, 0.5) if finite else (0.5, 0.75)
+            x0 = np.array([rng.randint(-3, 3) for _ in range(n)], dtype=float)
+            inp = {"fn": "LQ (hardening: objects)", "p1": {nm: p1[nm] for nm in mat_names}, "p2": {nm: p2[nm] for nm in mat_names}, "T1": T1, "T2": T2, "beta1": b1, "beta2": b2}
+            ctx.case(("h_lq_objects", str(inp)), nontrivial=True)
+            try:
+                r1, r2 = _lq_run(fresh_lq(p1, T1, b1), T1, x0, 5), _lq_run(fresh_lq(p2, T2, b2), T2, x0, 5)
+                # two objects alive at once, calls interleaved
+                o1, o2 = fresh_lq(p1, T1, b1), fresh_lq(p2, T2, b2)
+                g1, g2 = [], []
+                if finite:
+                    for s_ in range(max(T1, T2)):
+                        if s_ < T1: o1.update_values(); g1 += [np.array(o1.F), np.array(o1.P), float(o1.d)]
+                        if s_ < T2: o2.update_values(); g2 += [np.array(o2.F), np.array(o2.P), float(o2.d)]
+                    a1 = o1.compute_sequence(x0, random_state=5); a2 = o2.compute_sequence(x0, random_state=5)
+                    g1 += [a1[0], a1[1], a1[2], np.array(o1.P), float(o1.d)]; g2 += [a2[0], a2[1], a2[2], np.array(o2.P), float(o2.d)]
+                else:
+                    s1 = o1.stationary_values(); s2 = o2.stationary_values()
+                    a1 = o1.compute_sequence(x0, ts_length=4, random_state=5); a2 = o2.compute_sequence(x0, ts_length=4, random_state=5)
+                    g1 = list(s1) + list(a1); g2 = list(s2) + list(a2)
+                ctx.count("seq:two_objects_interleaved")
+                if max(_dev(g1, r1), _dev(g2, r2)) > 1e-12:
+                    ctx.fail("lq_objects_interfere", "two LQ objects alive at once: interleaved calls differ from the same calls on separate fresh objects", inp, None, None)
+                # attribute re-assignment: o1 gets all of p2's data, then must behave as a fresh object built from it
+                for nm in ("Q", "R", "A", "B", "C", "N"):
+                    setattr(o1, nm, fa(p2[nm]))
+                o1.beta = b2
+                if finite:
+                    o1.Rf = fa(p2["Rf"]); o1.T = T2
+                    a = o1.compute_sequence(x0, random_state=5)
+                    got = [a[0], a[1], a[2], np.array(o1.P), float(o1.d)]; exp = r2[-5:]
+                else:
+                    s_ = o1.stationary_values(); a = o1.compute_sequence(x0, ts_length=4, random_state=5)
+                    got = list(s_) + list(a); exp = r2
+                ctx.count("seq:reassign_all_attributes")
+                if _dev(got, exp) > 1e-12:
+                    ctx.fail("lq_stale_state", "after re-assigning Q,R,A,B,C,N,beta%s the object does not behave as a fresh object built from the current data" % (",Rf,T" if finite else ""), inp, None, None)
+            except Exception as e:     # noqa
+                ctx.fail("lq_raises", "LQ object sequence raises", inp, repr(e), None)
+
+        # ===================================================== degenerate LQ problems
+        for t in range(10 if thorough else 4):
+            n, k = rng.randint(1, 2), 1
+            p = gen_lq_int(rng, n, k, 1)
+            if p is None:
+                continue
+            which = ("A=0", "Rf=0,x0=0,T=1", "beta=1-1e-6", "n=k=j=1")[t % 4]
+            ctx.count("degenerate:LQ_%s" % which); ctx.case(("h_lq_deg", which, str(p)), nontrivial=True)
+            inp = pinput(p, fn="LQ (hardening: degenerate %s)" % which)
+            try:
+                if which == "A=0":
+                    pA = dict(p, A=zeros(n, n))
+                    P, F, d = fresh_lq(pA, None, 0.5).stationary_values()
+                    # with A = 0 next period's state is B u + C w: P = R - N'(Q + .5 B'PB)^-1 N solved by the update itself
+                    Fx, Px, dx = exact_update(dict(pA, beta=Fraction(1, 2)), fr2(P), frac(float(d)))
+                    if max(_rel_f(P, fl(Px)), _rel_f(F, fl(Fx))) > 1e-8:
+                        ctx.fail("lq_degenerate", "A = 0: stationary (P, F) is not a fixed point of the exact update", inp, np.array(P).tolist(), fl(Px))
+                elif which == "Rf=0,x0=0,T=1":
+                    lq = qe.LQ(fa(p["Q"]), fa(p["R"]), fa(p["A"]), fa(p["B"]), C=np.zeros((n, 1)), N=fa(p["N"]), beta=1, T=1, Rf=np.zeros((n, n)))
+                    xp, up, wp = lq.compute_sequence(np.zeros(n), random_state=1)
+                    if np.max(np.abs(xp)) > 0 or np.max(np.abs(up)) > 0:
+                        ctx.fail("lq_degenerate", "x0 = 0, C = 0: the path must stay at 0", inp, xp.tolist(), 0)
+                    Fx, Px, dx = exact_update(dict(p, beta=Fraction(1), C=None), zeros(n, n), Fraction(0))
+                    if max(_rel_f(lq.P, fl(Px)), _rel_f(lq.F, fl(Fx))) > 1e-9:
+                        ctx.fail("lq_degenerate", "T = 1, Rf = 0: (P, F) is not the one-step solution", inp, np.array(lq.P).tolist(), fl(Px))
+                elif which == "beta=1-1e-6":
+                    b_ = 1 - 1e-6
+                    P, F, d = fresh_lq(p, None, b_).stationary_values()
+                    Cn = npf(p["C"]); dexp = b_ / (1 - b_) * float(np.trace(Cn.T @ P @ Cn))
+                    P1, F1, d1 = fresh_lq(p, None, b_).stationary_values(method="qz")
+                    if abs(d - dexp) > 1e-6 * (1 + abs(dexp)) or _dev((P1, F1), (P, F)) > 1e-6:
+                        ctx.fail("lq_degenerate", "beta = 1 - 1e-6: d is not beta/(1-beta) tr(C'PC) or the two methods disagree", inp, [float(d), np.array(P).tolist()], dexp)
+                else:
+                    p1_ = gen_lq_int(rng, 1, 1, 1)
+                    if p1_ is not None:
+                        sc = {nm: int(p1_[nm][0][0]) for nm in mat_names}
+                        a_ = qe.LQ(sc["Q"], sc["R"], sc["A"], sc["B"], C=sc["C"], N=sc["N"], beta=0.5).stationary_values()
+                        b_ = fresh_lq(p1_, None, 0.5).stationary_values()
+                        if _dev(a_, b_) > 1e-9:
+                            ctx.fail("lq_degenerate", "scalar arguments: differs from the 1x1 matrix call", pinput(p1_, fn="LQ scalars"), None, None)
+            except Exception as e:     # noqa
+                ctx.fail("lq_raises", "degenerate LQ problem (%s) raises" % which, inp, repr(e), None)
+
+        # ===================================================== LQMarkov objects
+        for t in range(12 if thorough else 4):
+            m, n, k, j = rng.choice((1, 2, 2)), rng.randint(1, 2), 1, rng.randint(1, 2)
+            regs = [gen_lq_int(rng, n, k, j) for _ in range(m)]
+            if any(r is None for r in regs):
+                continue
+            Pi = _gen_Pi(rng, m)
+            inp = {"fn": "LQMarkov (hardening)", "m": m, "Pi": Pi, "regimes": [{nm: r[nm] for nm in mat_names[:6]} for r in regs]}
+            ctx.case(("h_lqmarkov", str(inp)), nontrivial=True)
+            L = lambda nm, dress="float64": [dress_array(r[nm], dress) for r in regs]     # noqa
+
+            def mkobj(beta=0.9, dress="float64", pid="float64", **kw):
+                Pia = {"float64": _f(Pi), "list": _f(Pi).tolist(), "tuple": tuple(map(tuple, _f(Pi).tolist())), "fortran": np.asfortranarray(_f(Pi))}[pid]
+                return qe.LQMarkov(Pia, L("Q", dress), L("R", dress), L("A", dress), L("B", dress), beta=beta, **kw)
+            try:
+                x0 = np.array([rng.randint(-2, 2) for _ in range(n)], dtype=float)
+                full = dict(Cs=L("C"), Ns=L("N"))
+                o = mkobj(**full); ref = o.stationary_values(); ref = [np.array(x) for x in ref]
+                again = o.stationary_values(); ctx.count("seq:lqmarkov_repeat")
+                s1 = o.compute_sequence(x0, ts_length=5, random_state=3); s2 = o.compute_sequence(x0, ts_length=5, random_state=np.int64(3))
+                s3 = mkobj(**full).compute_sequence(x0, ts_length=5, random_state=3)
+                if _dev(again, ref) > 0 or _dev(s2, s1) > 0 or _dev(s3, s1) > 1e-12:
+                    ctx.fail("lqmarkov_stale_state", "repeated stationary_values / compute_sequence on one object differ from a fresh object", inp, None, None)
+                dress, pid = rng.choice(ARRAY_DRESS), rng.choice(("list", "tuple", "fortran"))
+                ctx.count("dress:%s" % dress); ctx.count("dress:Pi=%s" % pid)
+                argsM = {"Q0": L("Q", dress)[0], "A0": L("A", dress)[0]}
+                got = checked_call(ctx, "lqmarkov", lambda: qe.LQMarkov(_f(Pi).tolist() if pid == "list" else (tuple(map(tuple, _f(Pi).tolist())) if pid == "tuple" else np.asfortranarray(_f(Pi))),
+                                   [argsM["Q0"]] + L("Q", dress)[1:], L("R", dress), [argsM["A0"]] + L("A", dress)[1:], L("B", dress), Cs=L("C", dress), Ns=L("N", dress), beta=np.float64(0.9)).stationary_values(max_iter=np.int64(1000)), argsM, dict(inp, dress=dress))
+                if got is not None and _dev(got, ref) > (1e-5 if dress == "float32" else 1e-9):
+                    ctx.fail("lqmarkov_dress", "LQMarkov with %s arguments differs from the canonical call" % dress, dict(inp, dress=dress), None, None)
+                # optional Cs / Ns: omitted vs None vs explicit zeros
+                zc = [np.zeros((n, 1)) for _ in regs]; zn = [np.zeros((k, n)) for _ in regs]
+                r0 = mkobj(Cs=zc, Ns=zn).stationary_values()
+                for kw in ({}, {"Cs": None}, {"Ns": None}, {"Cs": None, "Ns": None}):
+                    ctx.count("optional:LQMarkov_%s" % ("+".join(sorted(kw)) or "omitted"))
+                    if _dev(mkobj(**kw).stationary_values(), r0) > 1e-12:
+                        ctx.fail("lqmarkov_optional_arguments", "LQMarkov with Cs/Ns omitted or None differs from explicit zero matrices", dict(inp, kwargs=sorted(kw)), None, None)
+                # attribute re-assignment and two objects alive
+                o2 = mkobj(beta=0.5, **full); o.beta = 0.5; ctx.count("seq:lqmarkov_reassign_beta")
+                a_, b_ = o.stationary_values(), o2.stationary_values()
+                if _dev(a_, b_) > 1e-12:
+                    ctx.fail("lqmarkov_stale_state", "after beta is re-assigned the object differs from a fresh object", inp, None, None)
+            except Exception as e:     # noqa
+                if "Convergence failed" in str(e):
+                    ctx.count("lqmarkov:noconv"); continue
+                ctx.fail("lqmarkov_raises", "LQMarkov hardening battery raises", inp, repr(e), None)
+
+        # ===================================================== RBLQ objects
+        for t in range(15 if thorough else 5):
+            n, k, j = rng.randint(1, 3), rng.randint(1, 2), rng.randint(1, 2)
+            p = gen_lq_int(rng, n, k, j)
+            if p is None or all(v == 0 for r in p["C"] for v in r):
+                continue
+            names = ("Q", "R", "A", "B", "C")
+            try:
+                P0 = fresh_lq(dict(p, N=zeros(k, n)), None, 0.9).stationary_values()[0]
+            except Exception:     # noqa
+                continue
+            theta = int(50 * (1 + np.max(np.linalg.eigvalsh(npf(p["C"]).T @ P0 @ npf(p["C"])))))
+            inp = {"fn": "RBLQ (hardening)", "Q": p["Q"], "R": p["R"], "A": p["A"], "B": p["B"], "C": p["C"], "beta": "9/10", "theta": theta}
+            ctx.case(("h_rblq", str(inp)), nontrivial=True)
+            mk = lambda th=float(theta), b=0.9: qe.RBLQ(*[fa(p[nm]) for nm in names], b, th)     # noqa
+            try:
+                e0 = mk().robust_rule(); e1 = mk().robust_rule_simple()
+                if _dev(e1, e0) > 1e-6:
+                    ctx.count("forms:RBLQ_skipped(simple iteration not contracting)"); continue
+                forms = {nm: rng.choice(ARRAY_DRESS) for nm in names}
+                args = {nm: dress_array(p[nm], forms[nm]) for nm in names}
+                fth = rng.choice(("int", "float", "np.int64", "np.int32", "np.intp", "np.float64")); fbt = rng.choice(("float", "np.float64"))
+                for f_ in list(forms.values()) + ["theta=" + fth, "beta=" + fbt]:
+                    ctx.count("dress:%s" % f_)
+                tolf = 1e-5 if "float32" in forms.values() else 1e-9
+
+                def go():
+                    rb = qe.RBLQ(*[args[nm] for nm in names], dress_scalar(0.9, fbt), dress_scalar(theta, fth))
+                    out = [rb.robust_rule(), rb.robust_rule(method="doubling"), rb.robust_rule_simple(), rb.robust_rule_simple(P_init=None),
+                           rb.robust_rule_simple(P_init=np.zeros((n, n)), max_iter=np.int64(80), tol=np.float64(1e-8)), rb.robust_rule(), rb.robust_rule(method="qz")]
+                    Pm = np.array(e0[2]); keep = Pm.copy()
+                    out.append(rb.d_operator(Pm)); out.append(rb.b_operator(Pm))
+                    if not np.array_equal(Pm, keep):
+                        raise AssertionError("d_operator/b_operator modify their argument P")
+                    out.append(rb.K_to_F(np.array(e0[1])))
+                    return out
+                got = checked_call(ctx, "rblq", go, args, dict(inp, dress=forms))
+                ctx.count("optional:RBLQ_method/P_init/max_iter/tol"); ctx.count("seq:rblq_repeat")
+                if got is not None:
+                    rbf = mk(); Pm = np.array(e0[2])
+                    exp = [e0, e0, e1, e1, e1, e0, rbf.robust_rule(method="qz"), rbf.d_operator(Pm), rbf.b_operator(Pm), rbf.K_to_F(np.array(e0[1]))]
+                    for ix, (g_, x_) in enumerate(zip(got, exp)):
+                        if _dev(g_, x_) > (max(tolf, 1e-7) if ix == 6 else tolf):
+                            ctx.fail("rblq_dress", "RBLQ call #%d of the battery (dress %s) differs from the canonical float64 object by %.3g" % (ix, forms, _dev(g_, x_)), dict(inp, dress=forms, call=ix), None, None)
+                # two objects alive + attribute re-assignment
+                ra, rbb = mk(), mk(th=float(4 * theta), b=0.8)
+                x1 = ra.robust_rule(); y1 = rbb.robust_rule(); x2 = ra.robust_rule_simple(); y2 = rbb.robust_rule_simple()
+                ctx.count("seq:two_objects_interleaved")
+                if _dev(x1, e0) > 1e-12 or _dev(y1, mk(th=float(4 * theta), b=0.8).robust_rule()) > 1e-12:
+                    ctx.fail("rblq_objects_interfere", "two RBLQ objects alive at once interfere", inp, None, None)
+                ra.theta = float(4 * theta); ra.beta = 0.8; ctx.count("seq:rblq_reassign_theta_beta")
+                if _dev(ra.robust_rule(), y1) > 1e-12 or _dev(ra.robust_rule_simple(), y2) > 1e-12:
+                    ctx.fail("rblq_stale_state", "after theta, beta are re-assigned the object differs from a fresh object", inp, None, None)
+                # degenerate: C = 0 -> D(P) = P, the robust rule IS the LQ rule
+                if t % 2 == 0:
+                    ctx.count("degenerate:RBLQ_C=0")
+                    rz = qe.RBLQ(fa(p["Q"]), fa(p["R"]), fa(p["A"]), fa(p["B"]), np.zeros((n, j)), 0.9, float(theta))
+                    Fz, Kz, Pz = rz.robust_rule(); Fs, Ks, Ps = rz.robust_rule_simple()
+                    Pl, Fl, dl = qe.LQ(fa(p["Q"]), fa(p["R"]), fa(p["A"]), fa(p["B"]), beta=0.9).stationary_values()
+                    if _dev((Fz, Pz), (Fl, Pl)) > 1e-8 or _dev((Fs, Ps), (Fl, Pl)) > 1e-6 or np.max(np.abs(Kz)) > 1e-12:
+                        ctx.fail("rblq_degenerate", "C = 0: the robust rule must be the ordinary LQ rule and K = 0", inp, [np.array(Fz).tolist(), np.array(Kz).tolist()], np.array(Fl).tolist())
+            except Exception as e:     # noqa
+                ctx.fail("rblq_raises", "RBLQ hardening battery raises", inp, repr(e), None)
+
+        # ===================================================== nnash
+        for t in range(15 if thorough else 5):
+            n, k1, k2 = rng.randint(1, 2), 1, rng.randint(1, 2)
+            if t % 3 == 0:
+                n, k1, k2 = 1, 1, 1; ctx.count("degenerate:nnash_n=k1=k2=1")
+            p1, p2 = gen_lq_int(rng, n, k1, 1), gen_lq_int(rng, n, k2, 1)
+            if p1 is None or p2 is None:
+                continue
+            Z = lambda r, c: [[Fraction(0)] * c for _ in range(r)]     # noqa
+            mats = (p1["A"], p1["B"], p2["B"], p1["R"], p2["R"], p1["Q"], p2["Q"], Z(k2, k2), Z(k1, k1), mtr(p1["N"]), mtr(p2["N"]), Z(k2, k1), Z(k1, k2))
+            inp = dict(zip(_NNASH_NAMES, mats)); inp.update({"fn": "nnash (hardening)", "beta": "9/10"})
+            try:
+                e = qe.nnash(*[npf(M) for M in mats], beta=0.9)
+            except Exception:     # noqa
+                ctx.count("forms:nnash_float64_run_raised"); continue
+            ctx.case(("h_nnash", str(inp)), nontrivial=True)
+            forms = [rng.choice(ARRAY_DRESS) for _ in mats]
+            args = {nm: dress_array(M, f_) for nm, M, f_ in zip(_NNASH_NAMES, mats, forms)}
+            fbt = rng.choice(("float", "np.float64")); fmi = rng.choice(("int", "np.int64", "np.int32", "np.intp"))
+            for f_ in forms + ["beta=" + fbt, "max_iter=" + fmi]:
+                ctx.count("dress:%s" % f_)
+            got = checked_call(ctx, "nnash", lambda: qe.nnash(*[args[nm] for nm in _NNASH_NAMES], beta=dress_scalar(0.9, fbt), tol=1e-8, max_iter=dress_scalar(1000, fmi)), args, dict(inp, dress=forms))
+            ctx.count("optional:nnash_tol/max_iter_explicit")
+            if got is not None and _dev(got, e) > (1e-5 if "float32" in forms else 1e-9):
+                ctx.fail("nnash_dress", "nnash with dressed arguments differs from the canonical float64 call by %.3g" % _dev(got, e), dict(inp, dress=forms), None, None)
+            try:
+                b1 = qe.nnash(*[npf(M) for M in mats]); b2 = qe.nnash(*[npf(M) for M in mats], beta=1.0)
+                ctx.count("optional:nnash_beta_omitted")
+                if _dev(b1, b2) > 0:
+                    ctx.fail("nnash_optional_arguments", "nnash with beta omitted differs from beta=1.0", inp, None, None)
+            except Exception:     # noqa  (beta = 1: the sweep need not converge)
+                ctx.count("nnash:noconv")
 
 
 # ====================================================================== operation sequences on ONE LQ object
